@@ -133,6 +133,16 @@ def build_unit(u, wd, defs):
                 if not hit:
                     raise Undecided("extraction: no line matches %s in %s" % (rx, ex["file"]))
                 parts += hit
+            for rx in ex.get("blocks", []):   # verbatim multi-line declarations: from the matching line to the next line that begins with '}'
+                lines_ = src.splitlines()
+                hit = [k for k, l in enumerate(lines_) if re.match(rx, l)]
+                if not hit:
+                    raise Undecided("extraction: no block starts with %s in %s" % (rx, ex["file"]))
+                for k in hit:
+                    e = k
+                    while e < len(lines_) and not lines_[e].startswith("}"):
+                        e += 1
+                    parts += lines_[k:e + 1]
             if ex.get("prototypes"):
                 # a prototype for every other static function of the file (their bodies are dropped; the unit's spec header
                 # defines the ones it gives a meaning to, the rest have no body: CBMC treats their results as arbitrary)
